@@ -237,3 +237,97 @@ Qed.
 Example relay_returns_after_failure :
   relay_returned (relay_run HalfCloseAlways 2 EndErr [0; 1; 0; 0; 0; 1; 1]) = true.
 Proof. vm_compute. reflexivity. Qed.
+
+(* ---------------- Close histories with a parent cancellation ---------------- *)
+Lemma ch_closed_stays g : forall h s, ch_conns_closed s = true -> ch_conns_closed (fold_left (ch_step g) h s) = true.
+Proof.
+  induction h as [|e r IH]; intros s Hs; [exact Hs|]. cbn [fold_left]. apply IH.
+  destruct e; cbn; [destruct g, (ch_ctx_done s); cbn; auto|exact Hs].
+Qed.
+
+(* whatever came before — any number of parent cancellations and earlier Close calls, in any order — once Close has been
+   called the connections are closed, and they stay closed under every continuation *)
+Theorem close_runs_its_sequence : forall h1 h2,
+  ch_conns_closed (ch_run CloseAlways (h1 ++ EvClose :: h2)) = true.
+Proof.
+  intros h1 h2. unfold ch_run. rewrite fold_left_app. cbn [fold_left]. apply ch_closed_stays.
+  unfold ch_step. cbn. reflexivity.
+Qed.
+
+(* a parent cancellation by itself closes nothing (dispose does not clean up on cancellation): the owner has to call Close *)
+Theorem parent_cancel_alone_closes_nothing : forall n,
+  ch_conns_closed (ch_run CloseAlways (repeat EvParentCancel n)) = false.
+Proof.
+  intros n. unfold ch_run.
+  assert (H : forall s, ch_conns_closed s = false -> ch_conns_closed (fold_left (ch_step CloseAlways) (repeat EvParentCancel n) s) = false).
+  { induction n as [|n IH]; intros s Hs; [exact Hs|]. cbn [repeat fold_left]. apply IH. exact Hs. }
+  apply H. reflexivity.
+Qed.
+
+(* refuted: with the "context already cancelled => nothing to do" guard, after a parent cancellation NO number of Close
+   calls (and further cancellations) ever closes the connections *)
+Theorem skip_when_ctx_done_never_closes_refuted : forall h,
+  ch_conns_closed (ch_run SkipWhenCtxDone (EvParentCancel :: h)) = false.
+Proof.
+  intros h. unfold ch_run. cbn [fold_left].
+  assert (H : forall h s, ch_ctx_done s = true -> ch_conns_closed s = false ->
+            ch_conns_closed (fold_left (ch_step SkipWhenCtxDone) h s) = false).
+  { clear h. induction h as [|e r IH]; intros s Hd Hc; [exact Hc|]. cbn [fold_left]. apply IH; destruct e; cbn; rewrite ?Hd; cbn; auto. }
+  apply H; reflexivity.
+Qed.
+
+Example close_history_nonvacuous :
+  ch_run CloseAlways [EvParentCancel; EvClose; EvParentCancel; EvClose]
+  = {| ch_ctx_done := true; ch_conns_closed := true; ch_close_calls := 2 |}.
+Proof. reflexivity. Qed.
+
+(* ---------------- delivery of the remaining direction does not depend on elapsed time ---------------- *)
+Definition DInv (m0 : nat) (s : dshared * list dthread) : Prop :=
+  exists b, snd s = [b; DClock] /\
+    match b with
+    | DResp m => d_got (fst s) + m = m0
+    | DRespDone tr => tr = false /\ d_got (fst s) = m0
+    | DClock => False
+    end.
+
+Lemma dinv_step m0 s i : DInv m0 s ->
+  DInv m0 (sys_step _ _ (dstep None) s i) /\
+  (match nth_error (snd (sys_step _ _ (dstep None) s i)) 0 with Some (DResp m) => S m | _ => 0 end
+   <= match nth_error (snd s) 0 with Some (DResp m) => S m | _ => 0 end - (if Nat.eq_dec i 0 then 1 else 0)).
+Proof.
+  destruct s as [sh ls]. intros (b & Hls & Hb). cbn [fst snd] in *. subst ls. unfold DInv, sys_step. cbn [fst snd].
+  destruct i as [|[|i]]; cbn [nth_error].
+  - destruct b as [[|m]|tr|]; try contradiction; cbn.
+    + split; [eexists; split; [reflexivity|]; cbn; split; [reflexivity|lia]|lia].
+    + split; [eexists; split; [reflexivity|]; cbn; lia|lia].
+    + split; [eexists; split; [reflexivity|exact Hb]|lia].
+  - cbn. split; [exists b; split; [reflexivity|]; destruct b; cbn in *; auto|]. destruct b; lia.
+  - assert (En : nth_error (@nil dthread) i = None) by (destruct i; reflexivity). rewrite En. cbn.
+    split; [exists b; auto|]. destruct b; lia.
+Qed.
+
+(* however many clock ticks fall anywhere in the schedule (any pause between any two chunks), the remaining direction
+   delivers all m chunks once it has had m+1 steps *)
+Theorem delivery_independent_of_elapsed_time : forall m sched,
+  m + 1 <= count_occ Nat.eq_dec sched 0 ->
+  d_got (fst (drain_run None m sched)) = m /\
+  nth_error (snd (drain_run None m sched)) 0 = Some (DRespDone false).
+Proof.
+  intros m sched Hn. unfold drain_run.
+  assert (Hgen : forall sched s, DInv m s ->
+            DInv m (run _ _ (dstep None) s sched) /\
+            (match nth_error (snd (run _ _ (dstep None) s sched)) 0 with Some (DResp k) => S k | _ => 0 end
+             <= match nth_error (snd s) 0 with Some (DResp k) => S k | _ => 0 end - count_occ Nat.eq_dec sched 0)).
+  { clear. induction sched as [|i r IH]; intros s Hs; cbn [run fold_left count_occ]; [split; [exact Hs|lia]|].
+    destruct (dinv_step m s i Hs) as [Hs' Hm]. destruct (IH _ Hs') as [IH1 IH2]. unfold run in IH1, IH2. split; [exact IH1|].
+    destruct (Nat.eq_dec i 0); lia. }
+  assert (H0 : DInv m ({| d_now := 0; d_got := 0 |}, [DResp m; DClock])) by (eexists; split; [reflexivity|reflexivity]).
+  destruct (Hgen sched _ H0) as [(b & Hls & Hb) Hm]. cbn [snd nth_error] in Hm. rewrite Hls in *. cbn [nth_error] in *.
+  destruct b as [k|tr|]; try contradiction; [lia|]. destruct Hb as [-> Hd]. auto.
+Qed.
+
+(* refuted: a drain deadline of 5 ticks cuts a remaining direction that pauses longer *)
+Theorem drain_deadline_truncates_refuted :
+  exists sched, d_got (fst (drain_run (Some 5) 3 sched)) < 3 /\
+                nth_error (snd (drain_run (Some 5) 3 sched)) 0 = Some (DRespDone true).
+Proof. exists [0; 1; 1; 1; 1; 1; 1; 0; 0; 0]. vm_compute. split; [lia|reflexivity]. Qed.
